@@ -48,6 +48,8 @@ SAFE_STR = {
     "plot_legend_loc": ["best", "upper left", "lower right", "center"],
     "plot_texsystem": ["pdflatex", "xelatex", "lualatex"],
     "ros_map_viewport": ["update", "keep_unchanged", "zoom_to_map"],
+    # the name of a pandas writer (df.to_<format>)
+    "table_export_format": ["csv", "json"],
 }
 PLOT_IMPORT_KEYS = ("plot_backend", "plot_seaborn_enabled",
                     "plot_seaborn_style", "plot_fontfamily", "plot_fontscale",
